@@ -523,7 +523,11 @@ class Ctx:
                 return []
             rv = ds[0][4]
             if rv[0] in ('ref', 'rawptr'):
-                return place_fields(rv[2])
+                pf = place_fields(rv[2])
+                if not pf and rv[2][1] == ['*']:
+                    l = rv[2][0]       # reborrow `&mut *p`: follow p
+                    continue
+                return pf
             if rv[0] == 'use' and rv[1][0] in ('m', 'c') and not rv[1][1][1]:
                 l = rv[1][1][0]
                 continue
@@ -693,3 +697,84 @@ def send_to(prog, to_pats=(), method_pats=(), nonzero=None):
             return False
         return True
     return p
+
+
+# ---------------------------------------------------------------------- memo operations
+PLUS_TRAITS = ('BitOrAssign::bitor_assign', 'AddAssign::add_assign')
+MINUS_TRAITS = ('SubAssign::sub_assign', 'BitAndAssign::bitand_assign')
+RESET_CALLEES = ('::new', '::zero', '::default', 'mem::take')
+
+
+def field_ops(X, f, adt, fields=None, slicer=None):
+    """[(field, dir, bb, line, atoms)] for every update of a field of `adt` in body f:
+       '+'   `x.f |= v` / `x.f += v` (BitOrAssign / AddAssign through &mut x.f), or the primitive `x.f = x.f + v`
+       '-'   `x.f -= v` / `x.f &= v`, or the primitive `x.f = x.f - v`
+       '0'   reset: `x.f = T::new()/zero()/default()`, `mem::take(&mut x.f)`
+       '='   any other plain assignment `x.f = v`
+    atoms: narrow slice of the value operand v (empty for resets)."""
+    out = []
+    prog = X.prog
+    SL = slicer or prog.narrow
+    for c in f.calls:
+        d = c.defp or ''
+        cal = c.callee or ''
+        dirn = '+' if d.endswith(PLUS_TRAITS) else '-' if d.endswith(MINUS_TRAITS) else None
+        if dirn and len(c.args) == 2:
+            t = X.mut_target(c, 0)
+            if t and _sfx_adt(t[-1][0], adt):
+                out.append((t[-1][1], dirn, c.bb, c.line, SL.operand(f, c.args[1])))
+        elif (cal.endswith('BitField::set') or cal.endswith('BitField::unset')) and len(c.args) == 2:
+            t = X.mut_target(c, 0)
+            if t and _sfx_adt(t[-1][0], adt):
+                out.append((t[-1][1], '+' if cal.endswith('::set') else '-', c.bb, c.line, SL.operand(f, c.args[1])))
+        elif (d.endswith('mem::take') or cal.endswith('mem::take')) and c.args:
+            t = X.mut_target(c, 0)
+            if t and _sfx_adt(t[-1][0], adt):
+                out.append((t[-1][1], '0', c.bb, c.line, set()))
+        # call destination is the field: x.f = callee(..)
+        dst = f.blocks[c.bb]['t'][3]
+        pf = place_fields(dst)
+        if pf and _sfx_adt(pf[-1][0], adt):
+            reset = any((cal or d).endswith(s) for s in RESET_CALLEES) and not c.args
+            dirn2 = '0' if reset else '='
+            m_ = re.search(r'core::ops::(?:arith|bit)::(Add|Sub|BitOr|BitAnd)>?::', d) or re.search(r'core::ops::(?:arith|bit)::(Add|Sub|BitOr|BitAnd)(?:<[^>]*>+)?>?::', cal)
+            if m_ and len(c.args) == 2 and has_atom(prog.narrow.operand(f, c.args[0]), 'F:%s.%s' % (adt, pf[-1][1])):
+                # x.f = &x.f + v   (same as x.f += v)
+                dirn2 = '+' if m_.group(1) in ('Add', 'BitOr') else '-'
+                out.append((pf[-1][1], dirn2, c.bb, c.line, SL.operand(f, c.args[1])))
+                continue
+            out.append((pf[-1][1], dirn2, c.bb, c.line, set() if reset else SL.call(f, c)))
+    for bi, b in enumerate(f.blocks):
+        if b.get('cleanup'):
+            continue
+        for st in b['s']:
+            if st[0] != '=':
+                continue
+            pf = place_fields(st[1])
+            if not pf or not _sfx_adt(pf[-1][0], adt):
+                continue
+            fld = pf[-1][1]
+            rv = st[2]
+            at = SL.rvalue(f, rv)
+            atn = prog.narrow.rvalue(f, rv)
+            dirn = '='
+            if rv[0] == 'bin' and norm_op(rv[1]) in ('Add', 'Sub', 'BitOr'):
+                # primitive memo: x.f = x.f + v (the overflow-checked form assigns a tuple temp first; handled via slice below)
+                dirn = '+' if norm_op(rv[1]) in ('Add', 'BitOr') else '-'
+            elif rv[0] == 'use':
+                ops = {o[1] for o in expr_ops(prog, f, rv[1]) if o[0] == 'OP'}
+                selfread = has_atom(prog.narrow.operand(f, rv[1]), 'F:%s.%s' % (adt, fld))
+                if selfread and ops & {'Add'} and not ops & {'Sub'}:
+                    dirn = '+'
+                elif selfread and ops & {'Sub'} and not ops & {'Add'}:
+                    dirn = '-'
+                elif not ops and any(has_atom(atn, 'C:' + s) for s in ('::new', '::zero', '::default')) and not any(a[0] in ('F', 'P') for a in atn):
+                    dirn = '0'
+            out.append((fld, dirn, bi, st[3], at))
+    if fields is not None:
+        out = [o for o in out if o[0] in fields]
+    return out
+
+
+def _sfx_adt(path, adt):
+    return path == adt or path.endswith('::' + adt)
